@@ -64,6 +64,9 @@ func (c *RawSubstrateConfig) Validate() error {
 	if c.BlockInterval < 1 {
 		return fmt.Errorf("blockInterval has to be >=1")
 	}
+	if err := chain.ValidateSeconds("blockRetryInterval", c.BlockRetryInterval); err != nil {
+		return err
+	}
 	if c.SubstrateNetwork < 0 || c.SubstrateNetwork > math.MaxUint16 {
 		return fmt.Errorf("substrateNetwork has to be in range 0-65535")
 	}
